@@ -21,6 +21,7 @@
 (*                   / Release); NoDeadlock, Isolation, SessionContinues.  *)
 (*                   All sessions are exported with their expected replies.*)
 (*   "c15"      C15  decision table Effect(cmd, connection, type, token).  *)
+(*   "c15seq"   C15  one token used repeatedly while time passes.          *)
 (*   "c19"      C19  histories of one remote submission with a parameter   *)
 (*                   map, then status/list/cancel/release/restart.         *)
 (*                                                                         *)
@@ -29,7 +30,7 @@
 (***************************************************************************)
 EXTENDS Naturals, Sequences, FiniteSets, TLC, Json, SequencesExt
 
-CONSTANTS Part,               \* "lines" | "sessions" | "c15" | "c19"
+CONSTANTS Part,               \* "lines" | "sessions" | "c15" | "c15seq" | "c19"
           MaxLinesA,          \* sessions: maximal number of lines of session 1
           MaxLinesB,          \* sessions: maximal number of lines of session 2 (the concurrent one)
           KF_FindUnitRelock,  \* TRUE: findUnit keeps its read lock across scanForUnit, which read-locks again and then
@@ -37,6 +38,7 @@ CONSTANTS Part,               \* "lines" | "sessions" | "c15" | "c19"
           MaxOps,             \* c19: maximal number of operations after the submit
           ExportOps,          \* c19: histories up to this length are exported for every key set of the family
           KeyFamily,          \* c19: "all" (every subset of the key classes) or "cover" (a covering family of subsets)
+          VerifierRemembersTokens, \* c15seq: FALSE = the code (a token is verified afresh at every use); TRUE = token strings that verified once are accepted from a cache
           RedactNeedsTLSRecord, \* c19: FALSE = the code (redaction looks at the keys only); TRUE = redaction skipped for units without a recorded TLS profile
           DumpFile            \* "" or the NDJSON file the vectors of this part are written to
 
@@ -525,6 +527,57 @@ W15_NoUnixBypass   == ~(Part = "c15" /\ v15.effect /\ v15.conn = "unix" /\ v15.w
 W15_NoRefusal      == ~(Part = "c15" /\ ~v15.effect /\ v15.conn = "tcp" /\ v15.wt = "remote_sign" /\ v15.tok = "hs256_pub")
 
 (***************************************************************************)
+(*     PART "c15seq" : the life-cycle of one token (time-dependent)        *)
+(***************************************************************************)
+\* One correctly signed, correctly addressed token with expiry TokExp is used several times against the same running
+\* daemon, for commands on a verifying work type over TCP and the mesh, while time passes and the daemon may restart.
+\* Whether a use is accepted depends on the moment of use only - never on the token having been accepted before.
+TokExp  == 1                  \* the token is valid at time 0 and expired from time 1 on
+MaxNow  == 2
+SeqConns15 == {"tcp", "mesh"}
+ValidAt(t) == t < TokExp
+
+Seq15Init == [now |-> 0, cache |-> FALSE, steps |-> <<>>]
+
+\* what the verifier answers at this moment; the cache is what a verifier that remembers verified strings would hold
+Accepts(st) == ValidAt(st.now) \/ (VerifierRemembersTokens /\ st.cache)
+
+DoSeq15(st, step) ==
+  CASE step.op = "use" ->
+         [st EXCEPT !.steps = Append(@, [op |-> "use", cmd |-> step.cmd, conn |-> step.conn, at |-> st.now, effect |-> Accepts(st)]),
+                    !.cache = @ \/ ValidAt(st.now)]                 \* a full verification that succeeded
+    [] step.op = "tick" ->
+         [st EXCEPT !.now = IF @ < MaxNow THEN @ + 1 ELSE @,
+                    !.steps = Append(@, [op |-> "tick", cmd |-> "-", conn |-> "-", at |-> st.now, effect |-> FALSE])]
+    [] step.op = "restart" ->
+         [st EXCEPT !.cache = FALSE,                                 \* nothing the verifier learnt survives the process
+                    !.steps = Append(@, [op |-> "restart", cmd |-> "-", conn |-> "-", at |-> st.now, effect |-> FALSE])]
+
+UseSteps15 == { [op |-> "use", cmd |-> c, conn |-> k] : c \in Cmds15, k \in SeqConns15 }
+Steps15 == UseSteps15 \cup { [op |-> "tick", cmd |-> "-", conn |-> "-"], [op |-> "restart", cmd |-> "-", conn |-> "-"] }
+MaxSeqLen15 == 4
+Next15Seq == /\ Len(v15.steps) < MaxSeqLen15
+             /\ \E step \in Steps15 : v15' = DoSeq15(v15, step)
+
+\* the property over sequences: a command over TCP or the mesh takes effect only at a moment at which the token is valid
+NoEffectWithoutTokenSeq ==
+  Part = "c15seq" => \A i \in 1..Len(v15.steps) : v15.steps[i].op = "use" /\ v15.steps[i].effect => ValidAt(v15.steps[i].at)
+ValidTokenAcceptedEveryTime ==
+  Part = "c15seq" => \A i \in 1..Len(v15.steps) : v15.steps[i].op = "use" /\ ValidAt(v15.steps[i].at) => v15.steps[i].effect
+W15Seq_NoReplayRefused ==    \* some sequence uses the token successfully and is refused with the same token later
+  ~(Part = "c15seq" /\ \E i, j \in 1..Len(v15.steps) : i < j /\ v15.steps[i].op = "use" /\ v15.steps[i].effect
+                                                       /\ v15.steps[j].op = "use" /\ ~v15.steps[j].effect)
+
+\* export: use a; [use b | tick, use b | tick, restart, use b] for all commands and both connection kinds
+RECURSIVE FoldSeq15(_, _)
+FoldSeq15(st, steps) == IF steps = <<>> THEN st ELSE FoldSeq15(DoSeq15(st, Head(steps)), Tail(steps))
+Tick15 == [op |-> "tick", cmd |-> "-", conn |-> "-"]
+Restart15 == [op |-> "restart", cmd |-> "-", conn |-> "-"]
+SeqShapes15(a, b) == { <<a, b>>, <<a, Tick15, b>>, <<a, Tick15, Restart15, b>> }
+SeqVec15(steps) == [steps |-> FoldSeq15(Seq15Init, steps).steps]
+SeqVectors15 == UNION { { SeqVec15(q) : q \in SeqShapes15(a, b) } : a \in UseSteps15, b \in UseSteps15 }
+
+(***************************************************************************)
 (*            PART "c19" : secret parameters of remote work                *)
 (***************************************************************************)
 Keys19 == {"secret_x", "SECRET_x", "Secret_X", "xsecret_", "secret", "plain"}
@@ -650,12 +703,13 @@ Init ==
   /\ ss  = IF Part = "sessions" THEN [s \in Sessions |-> SessInit] ELSE Parked
   /\ du  = IF Part = "sessions" THEN [s \in Sessions |-> UnitsInit] ELSE Parked
   /\ lk  = IF Part = "sessions" THEN [rd |-> [s \in Sessions |-> 0], wr |-> 0, ww |-> {}] ELSE Parked
-  /\ v15 \in (IF Part = "c15" THEN Vectors15 ELSE {Parked})
+  /\ v15 \in (IF Part = "c15" THEN Vectors15 ELSE IF Part = "c15seq" THEN {Seq15Init} ELSE {Parked})
   /\ IF Part = "c19" THEN Init19 ELSE h19 = Parked
 
 Next ==
   \/ Part = "sessions" /\ SessNext /\ UNCHANGED <<lc, v15, h19>>
   \/ Part = "c19" /\ Next19 /\ UNCHANGED <<lc, ss, du, lk, v15>>
+  \/ Part = "c15seq" /\ Next15Seq /\ UNCHANGED <<lc, ss, du, lk, h19>>
 
 Spec == Init /\ [][Next]_vars
 
@@ -664,6 +718,7 @@ Export ==
   CASE Part = "lines"    -> SetToSeq({ LineVec(c) : c \in LineClasses })
     [] Part = "sessions" -> SetToSeq(SessionVectors)
     [] Part = "c15"      -> SetToSeq(Vectors15)
+    [] Part = "c15seq"   -> SetToSeq(SeqVectors15)
     [] Part = "c19"      -> SetToSeq(Vectors19)
 ASSUME DumpFile = "" \/ ndJsonSerialize(DumpFile, Export)
 =============================================================================
